@@ -49,7 +49,7 @@ Theorem C10_buffer_iter : forall l1 l2, C10.nonempty_keys l1 -> C10.nonempty_key
   collect (length l1 + length l2 + 1)%nat {| i_buf := sub_init l1; i_back := sub_init l2 |} = overlay l1 l2.
 Proof.
   intros l1 l2 N1 N2 S1 S2. rewrite PeanoNat.Nat.add_1_r.
-  rewrite (C10.initial_collect l1 l2 _ N1 N2 (le_n _)). exact (C10.merge_overlay l1 l2 S1 S2).
+  rewrite (C10.initial_collect l1 l2 _ N1 N2 (le_n _)). exact (merge_overlay l1 l2 S1 S2).
 Qed.
 Print Assumptions C10_buffer_iter.
 
